@@ -106,9 +106,25 @@ func call(api, desc string, f func()) bool {
 	return true
 }
 
+// longLists: operands beyond any small-size shortcut (17 ... 300 elements): all distinct, reversed, and with
+// every value repeated (i mod 5, i mod 37).
+func longLists() [][]int {
+	var out [][]int
+	for _, n := range []int{17, 33, 40, 65, 130, 300} {
+		asc, desc, m5, m37 := make([]int, n), make([]int, n), make([]int, n), make([]int, n)
+		for i := 0; i < n; i++ {
+			asc[i], desc[i], m5[i], m37[i] = i, n-1-i, i%5, (i*7)%37
+		}
+		out = append(out, asc, desc, m5, m37)
+	}
+	return out
+}
+
 func slices(maxLen int) {
-	ls := allLists(maxLen)
-	for _, a := range ls {
+	short := allLists(maxLen)
+	longs := longLists()
+	ls := append(append([][]int{}, short...), longs...)
+	for ai, a := range ls {
 		inputs++
 		// Distinct twins
 		var g []int
@@ -121,9 +137,16 @@ func slices(maxLen int) {
 				bad("Distinct", "law", "Distinct(%v)=%v", a, g)
 			}
 		}
-		for _, b := range ls {
+		for bi, b := range ls {
+			// long operands are paired with each other and with the lists of up to 2 elements (incl. nil / empty)
+			if (ai >= len(short) && bi < len(short) && len(b) > 2) || (bi >= len(short) && ai < len(short) && len(a) > 2) {
+				continue
+			}
 			nonEmpty := len(a) > 0 && len(b) > 0
 			d := fmt.Sprintf("(%v, %v)", a, b)
+			if len(d) > 160 {
+				d = fmt.Sprintf("(%d elements %v..., %d elements %v...)", len(a), a[:min(len(a), 8)], len(b), b[:min(len(b), 8)])
+			}
 			var in, mi, df, un []int
 			var ini, mii []interface{}
 			var sub, sup, subi, supi bool
@@ -229,11 +252,18 @@ func slices(maxLen int) {
 }
 
 func streams(maxLen int) {
-	ls := allLists(maxLen)
-	for _, a := range ls {
-		for _, b := range ls {
+	short := allLists(maxLen)
+	ls := append(append([][]int{}, short...), longLists()...)
+	for ai, a := range ls {
+		for bi, b := range ls {
+			if (ai >= len(short) && bi < len(short) && len(b) > 2) || (bi >= len(short) && ai < len(short) && len(a) > 2) {
+				continue
+			}
 			inputs++
 			d := fmt.Sprintf("(%v, %v)", a, b)
+			if len(d) > 160 {
+				d = fmt.Sprintf("(%d elements %v..., %d elements %v...)", len(a), a[:min(len(a), 8)], len(b), b[:min(len(b), 8)])
+			}
 			type res struct {
 				in, mi, di, un []int
 				sub, sup, con  bool
@@ -250,7 +280,7 @@ func streams(maxLen int) {
 						bad("Stream", "operand-modified", "set operations changed an operand of %s", d)
 					}
 					// the same (derived, hence spare-capacity) operand in two unions: the first result must keep its elements
-					base := mk(append(append([]int{}, a...), 9, 9, 9, 9)).RemoveItem(9) // 4 spare slots
+					base := mk(append(append([]int{}, a...), -9, -9, -9, -9)).RemoveItem(-9) // 4 spare slots (the sentinel occurs in no operand)
 					u1 := base.Extend(sb)
 					w1 := u1.ToArray()
 					u2 := base.Extend(mk([]int{8}))
@@ -519,4 +549,11 @@ func main() {
 	r.Assume = []string{"laws are demanded for non-empty operands only (for stream sets: non-empty key sets and per-key streams), twin agreement and totality for all operands",
 		"sets are compared by key (the two families store different values under keys they add)"}
 	r.Finish()
+}
+
+func min(a, b int) int {
+	if a < b {
+		return a
+	}
+	return b
 }
